@@ -333,10 +333,20 @@ func (p *Process) isRestartable() bool {
 	return false
 }
 
-func (p *Process) waitForStarted() {
+// waitForStarted returns true once the process has been released from its own
+// dependencies (or was stopped), and false if it ended without ever being released
+// (skipped, or failed before the launch): it will not start any more.
+func (p *Process) waitForStarted() bool {
 	select {
 	case <-p.procStartedChan:
+		return true
 	case <-p.procRunCtx.Done():
+		select {
+		case <-p.procStartedChan:
+			return true
+		default:
+		}
+		return !p.isOneOfStates(types.ProcessStateSkipped, types.ProcessStateError)
 	}
 }
 
@@ -508,6 +518,8 @@ func (p *Process) onProcessEnd(state string) {
 	verifYieldP(p, "end.beforeState")
 	p.setState(state)
 	p.updateProcState()
+	// nothing of this process will be launched any more: release process_started waiters
+	p.runCancelFn()
 
 	verifYieldP(p, "end.beforeDone")
 	p.Lock()
